@@ -26,6 +26,7 @@ mod c19;
 mod c20;
 mod dbg;
 mod dump;
+mod forge;
 mod progs;
 mod stark_dsl;
 mod util;
